@@ -90,10 +90,76 @@ def jobs(tier):
     for api in ("produce", "fetch", "produce0"):
         out.append({"kind": "heal", "api": api, "faults": 1 if q else 2})
     out.append({"kind": "outage"})
+    for api in ("produce", "fetch"):
+        out.append({"kind": "multi-error", "api": api})
     return out
 
 
+def _multi_error(job):
+    """One batch (fail_on_error=False, as the producer sends) spanning two topics whose leaders have both moved: every topic that
+    answers not-leader / unknown-partition must have its routing invalidated, not only the first one."""
+
+    def run(ctx):
+        clock = Clock()
+        cl = SimCluster(clock)
+        client_mod.random = _Shuffle(ctx, max_perms=1)
+        for n in (1, 2):
+            cl.add_broker(n)
+        cl.leaders[("t", 0)] = 1
+        cl.leaders[("u", 0)] = 2
+        ctx.sig("multi-error api=%s" % job["api"])
+        client = KafkaClient("boot:9092", reactor=clock, endpoint_factory=cl.net.endpoint_factory, timeout=5000,
+                             retry_policy=lambda n_: 1.0, enable_protocol_version_discovery=False)
+
+        def call(tps, **kw):
+            res = []
+            if job["api"] == "produce":
+                d = client.send_produce_request([ProduceRequest(t, p, [Message(0, 0, None, b"x")]) for (t, p) in tps], acks=1, **kw)
+            else:
+                d = client.send_fetch_request([FetchRequest(t, p, 0, 1000) for (t, p) in tps], max_wait_time=100, **kw)
+            d.addBoth(res.append)
+            hold = []
+            for _ in range(60):
+                if res:
+                    break
+                _pump(ctx, cl, clock, lambda n: "answer", res, hold=hold)
+                for x in list(hold):
+                    if not x.answered and not x.transport.closed:
+                        cl.answer(x)
+                    hold.remove(x)
+                if res or next_timer(clock) is None:
+                    break
+                fire_next_timer(clock)
+            return res
+
+        order = [[("t", 0), ("u", 0)], [("u", 0), ("t", 0)]][ctx.choose("order", 2)]
+        r = call(order)
+        ctx.check(len(r) == 1 and not isinstance(r[0], Failure), "first-call-succeeds", repr(r))
+        # both leaders move (swap); the old leaders stay up and answer NOT_LEADER
+        cl.leaders[("t", 0)] = 2
+        cl.leaders[("u", 0)] = 1
+        r = call(order, fail_on_error=False)
+        ctx.check(len(r) == 1 and not isinstance(r[0], Failure), "call-resolves", "batch with fail_on_error=False: %r" % (r,))
+        if len(r) == 1 and not isinstance(r[0], Failure):
+            errs = {(x.topic, x.partition): x.error for x in r[0]}
+            ctx.log("batch-answer", sorted(errs.items()))
+            for tp, e in sorted(errs.items()):
+                if e in (3, 6):
+                    stale = client.topics_to_brokers.get(TopicAndPartition(*tp))
+                    cur = cl.leaders[tp]
+                    ctx.check(stale is None or stale.node_id == cur, "stale-routing-invalidated",
+                              "%s/%d answered error %d but the cache still routes it to %r (leader is %d)" % (tp[0], tp[1], e, stale, cur))
+        for tp in order:
+            r2 = call([tp])
+            good = len(r2) == 1 and not isinstance(r2[0], Failure) and all(x.error == 0 for x in r2[0])
+            ctx.check(good, "heals-within-retry-budget", "follow-up call for %s/%d: %r" % (tp[0], tp[1], r2))
+
+    return run
+
+
 def scenario(job):
+    if job["kind"] == "multi-error":
+        return _multi_error(job)
     if job["kind"] == "outage":
         return _outage(job)
     return _merge(job) if job["kind"] == "merge" else _heal(job)
